@@ -56,6 +56,12 @@ def gen_case(rng, quick=True):
     dem = [rng.choice([0, 0, 1, 2, 3, 5]) for _ in range(n)]
     ln = [rng.choice([0, 10, 20, 35, 50]) for _ in links]
     c = dict(n=n, links=links, layer=layer, overlap=overlap, dem=dem, len=ln, dup=dup)
+    r = rng.random()
+    if r < 0.15:
+        c["style"] = "tokens"
+    elif r < 0.3:
+        # the caller's graph is an undirected MultiGraph and is used for a second call (the first must leave it as it was)
+        c["undirected_twice"] = True
     if rng.random() < 0.3:
         # demand / length Series that do not list every name, or list names that are no nodes / links of the graph
         # (the code sums over `index.intersection`: a missing name counts 0, an unknown one is ignored)
@@ -76,6 +82,10 @@ def effective(c):
 
 
 def names(c):
+    if c.get("style") == "tokens":
+        # names that CONTAIN the internal prefixes 'N_' / 'L_' (JUNCTION_5, WELL_3, N_2, L_1)
+        return (["JUNCTION_%d" % i if i % 2 else "N_%d" % i for i in range(c["n"])],
+                ["WELL_%d" % k if k % 2 else "L_%d" % k for k in range(len(c["links"]))])
     if c["overlap"]:
         return ["x%d" % i for i in range(c["n"])], ["x%d" % k for k in range(len(c["links"]))]
     return ["n%d" % i for i in range(c["n"])], ["p%d" % k for k in range(len(c["links"]))]
@@ -181,7 +191,7 @@ def run_impl(wntr, c):
     import wntr.metrics.topographic as topo
 
     nn, ln = names(c)
-    G = nx.MultiDiGraph()
+    G = nx.MultiGraph() if c.get("undirected_twice") else nx.MultiDiGraph()
     for x in nn:
         G.add_node(x)
     for k, (a, b) in enumerate(c["links"]):
@@ -193,6 +203,8 @@ def run_impl(wntr, c):
         warnings.simplefilter("ignore")
         with CCWatch(topo) as w:
             try:
+                if c.get("undirected_twice"):
+                    topo.valve_segments(G, layer.copy())  # first call; the judged one is the second, on the same graph object
                 ns, ls, sz = topo.valve_segments(G, layer)
             except Exception as e:
                 out["seg_exc"] = "%s: %s" % (type(e).__name__, e)
@@ -311,6 +323,10 @@ class C18(Check):
 
     def judge(self, ctx, c, out, failures, broken, model_line):
         sn, sl, sattr = spec(effective(c))
+        if c.get("style") == "tokens":
+            ctx.count("names:containing-N_-or-L_")
+        if c.get("undirected_twice"):
+            ctx.count("graph:undirected-second-call-on-same-object")
         if c.get("dem_missing") or c.get("len_missing") or c.get("extra_names"):
             ctx.count("attributes:series-missing-or-extra-names")
         nontriv = bool(c["layer"]) and len(set(sn + sl)) > 1
